@@ -112,6 +112,26 @@ Theorem C20_full_dedup_enum : forall u_upper vals,
 Proof. exact dedup_enum_ok. Qed.
 Print Assumptions C20_full_dedup_enum.
 
+(* ---------------------------------------------------------------- namespaces: component schemas in the loader *)
+Theorem C20_partial_build_keys : forall raw, guard_F20k raw = true -> guard_F20m raw = true ->
+  build_keys raw = Some (combine (map class_name raw) (seq 0 (length raw))).
+Proof. exact build_keys_partial. Qed.
+Print Assumptions C20_partial_build_keys.
+
+Theorem C20_refuted_F20k : guard_F20k [w_a_b] = false /\ guard_F20m [w_a_b] = true /\ build_keys [w_a_b] = None.
+Proof. exact refuted_F20k. Qed.
+Print Assumptions C20_refuted_F20k.
+
+Theorem C20_refuted_F20m : guard_F20k [w_foo_bar; w_FooBar] = true /\ guard_F20m [w_foo_bar; w_FooBar] = false
+  /\ build_keys [w_foo_bar; w_FooBar] = Some [(w_FooBar, 0%nat)].
+Proof. exact refuted_F20m. Qed.
+Print Assumptions C20_refuted_F20m.
+
+Theorem C20_guard_schemas_nonvacuous :
+  guard_F20k [w_foo_bar; w_none; w_1st] = true /\ guard_F20m [w_foo_bar; w_none; w_1st] = true.
+Proof. exact schemas_guard_nonvacuous. Qed.
+Print Assumptions C20_guard_schemas_nonvacuous.
+
 (* ---------------------------------------------------------------- namespaces: model classes and module stems *)
 Theorem C20_full_dedup_models_nodup : forall raw,
   let out := dedup_models raw in
@@ -155,7 +175,7 @@ Print Assumptions C20_refuted_F07a.
 
 (* ---------------------------------------------------------------- namespaces: endpoint parameters *)
 Theorem C20_partial_params : forall names body vars,
-  guard_F04c names = true -> guard_F20j names body = true ->
+  guard_F04c names = true -> guard_F04d names body = true ->
   NoDup (params names body vars)
   /\ incl (map method_name names) (params names body vars)
   /\ (forall b, body = Some b -> In b (params names body vars)).
@@ -166,10 +186,10 @@ Theorem C20_refuted_F04c : guard_F04c w_F04c = false /\ nodupb (params w_F04c No
 Proof. exact refuted_F04c. Qed.
 Print Assumptions C20_refuted_F04c.
 
-Theorem C20_refuted_F20j : guard_F04c [s_body] = true /\ guard_F20j [s_body] (Some s_body) = false
+Theorem C20_refuted_F04d : guard_F04c [s_body] = true /\ guard_F04d [s_body] (Some s_body) = false
   /\ length (params [s_body] (Some s_body) []) = 1%nat.
-Proof. exact refuted_F20j. Qed.
-Print Assumptions C20_refuted_F20j.
+Proof. exact refuted_F04d. Qed.
+Print Assumptions C20_refuted_F04d.
 
 (* ---------------------------------------------------------------- non-vacuity of the guards *)
 Theorem C20_guard_nonvacuous :
